@@ -69,6 +69,9 @@ def strategy_(draw, tier):
         plans.append(plan)
         if plan == "3artic":
             three_artic_cycle(b, name)
+        elif plan == "good":
+            # also chromosomes of a single segment (no bubble at all)
+            b.chain(name, draw(st.sampled_from([0, 2, 3, 4, 5])))
         else:
             b.chain(name, draw(st.integers(2, 5)))
     b.fix_majority()
@@ -159,6 +162,15 @@ def run_case(case):
                    order, [c for c in order if status[c] == "bad"], res)
         res2, files2 = ordergfa.run_order(d, case["gfa"], ",".join(order2), case["by_chrom"], sub="o2", via=case.get("via", "api"))
         core.check(res2[0] == "ok", "order_gfa on the chain-shaped chromosomes only (%s) failed: %s", order2, res2)
+        if bad and case["order_seed"] % 2 == 0:
+            # only components that cannot be ordered are requested: reported and skipped, nothing written, normal completion
+            only_bad = [c for c in order if status[c] == "bad"]
+            res3, files3 = ordergfa.run_order(d, case["gfa"], ",".join(only_bad), case["by_chrom"], sub="o3", via=case.get("via", "api"))
+            core.check(res3[0] == "ok", "order_gfa with only non-chain components in the request (%s) did not complete normally: %s",
+                       only_bad, res3)
+            for fn, content in files3.items():
+                core.check(not any(l.startswith("S\t") for l in content.split("\n")),
+                           "only non-chain components requested (%s) but %s contains segments", only_bad, fn)
     core.check(sorted(files) == sorted(files2), "output files %s, but %s when the non-chain chromosomes are not requested",
                sorted(files), sorted(files2))
     for name in files:
